@@ -141,8 +141,7 @@ def stateless_methods_clause(res, clause, prop, cid, cls, method_names, what, al
             continue
         seen.append(m)
         for n in ast.walk(m.node):
-            if isinstance(n, ast.Call) and self_attr(n.func) and cls.lookup(n.func.attr) is not None and n.func.attr.startswith('_') and \
-                    not n.func.attr.startswith('__'):
+            if isinstance(n, ast.Call) and self_attr(n.func) and cls.lookup(n.func.attr) is not None and not n.func.attr.startswith('__'):
                 todo.append(cls.lookup(n.func.attr))
     for m in seen:
         ws = [(n, w) for n, w in instance_writes(m.node) if not any(('self.%s' % f) in w for f in allowed_fields)]
